@@ -45,7 +45,11 @@ def gen(rng, tier):
         if rng.random() < 0.4:
             focus["dec_fit"] = True  # component sizes that fill a workplace exactly, up to rounding (0.8 + 0.2, 0.9 + 0.1)
     feasible = rng.random() < 0.35 and not focus.get("fac_abs_dense")
-    return C.maybe_from_json(rng, C.maybe_history(rng, C.forward_spec(rng, tier, focus, feasible=feasible), 0.25, reload_prob=0.4))
+    spec = C.maybe_from_json(rng, C.maybe_history(rng, C.forward_spec(rng, tier, focus, feasible=feasible), 0.25, reload_prob=0.4))
+    if rng.random() < 0.06:
+        # simulate(error_tol=...) with a value that is not a positive tolerance (the argument is documented as a numerical guard)
+        spec["cfg"]["error_tol"] = rng.choice([0.0, 0.0, -1e-3, 1e-14])
+    return spec
 
 
 def extra_candidates(spec):
